@@ -7,6 +7,30 @@ from pathlib import Path
 VERIF = Path(__file__).resolve().parents[1]
 
 CHECKS = {
+    "C18": dict(
+        category="exploration", design_ref="DESIGN.md §2 C18",
+        technique="controlled scheduling of creator/opener/first-appender threads over 4 initial states and 2 backends; identity/schema/rows oracle by an independent reader",
+        text="2 actors from {create_table(schema A|B|none), create+first append, load_table, Table(path), load+append} "
+             "start from {absent, healthy, pointer lost, creation interrupted} on local storage and the CAS-S3 double; all "
+             "<=1-preemption schedules of 8 actor pairs x 4 states (quick; <=2 for three key cells, <=2 everywhere in "
+             "thorough), 3 actors under PCT/random. All callers must see one uuid; an existing table's uuid, schema and "
+             "snapshots are unchanged; exactly one initial pointer write from 'absent'; rows == existing + acked appends; "
+             "schema-less appends without any schema raise.",
+        note="A v0 metadata file without pointer counts as an existing (empty) table.",
+    ),
+    "C19": dict(
+        category="exploration", design_ref="DESIGN.md §2 C19",
+        technique="controlled scheduling at syscall (local flock) / S3-request granularity with a logical clock; online mutual-exclusion, lease and timeout monitors; multi-process kill stress with an interval-log checker",
+        text="(a) 2-3 real FileLock objects on one path (kernel flock arbitrates between fds) with gates at "
+             "os.open/fcntl.flock/os.close and a logical monotonic clock: all <=2-preemption schedules for 2 contenders "
+             "(budgeted per shard in quick), <=1 for 3; invariant 'at most one actor between acquire() and release()' at "
+             "every step; a blocked acquirer must raise TimeoutError within [timeout, timeout+poll] of logical time. "
+             "(b) 8 processes x 150 rounds with SIGKILLs of holders: enter/exit log has no overlap, counter == sections. "
+             "(c) 2-3 real S3LockProviders over the double with clock (lease expiry) and heartbeat actors: no acquire "
+             "while another holder's lease is live, owner changes only after the lease lapsed, superseded holder's "
+             "is_held() is False, acquire()==True only if the object carries its id, timeouts on the logical clock.",
+        note="O_EXCL fallback / msvcrt cannot run here; polling S3 provider is outside the property.",
+    ),
     "C06": dict(
         category="exploration", design_ref="DESIGN.md §2 C06",
         technique="controlled scheduling of a collector thread against committing transaction threads (bounded-preemption DFS, PCT, random) with aged files; final-reachability oracle + deletion log",
